@@ -467,6 +467,11 @@ def gen_scene(rng, quick):
     size = rng.weighted([("small", 3), ("medium", 2), ("large", 2)])
     n_atoms = rng.range(1, 5) if size == "small" else rng.range(11, 30) if size == "medium" else rng.range(31, 60)
     n_conf = rng.range(1, 3 if quick else 4) if size == "small" else rng.range(1, 2)
+    # an unpopulated conformer (weight exactly 0: explicit, or an underflowed Boltzmann factor) that lies where no other
+    # conformer is: unweighted descriptors and prune must still see it, weighted averages must not
+    zero_weight = rng.chance(1, 3)
+    if zero_weight:
+        n_conf = max(n_conf, 2)
     style = rng.weighted([("random", 4), ("quarter", 1)])
     elements = [rng.choice(ELEMENTS) for _ in range(n_atoms)]
     extent = {"small": 2.5, "medium": 3.5, "large": 4.5}[size]
@@ -477,6 +482,12 @@ def gen_scene(rng, quick):
     coords = [[[coord() for _ in range(3)] for _ in range(n_atoms)] for _ in range(n_conf)]
     charges = [[f32((rng.uniform() * 2 - 1)) for _ in range(n_atoms)] for _ in range(n_conf)]
     weights = [rng.choice([1.0, 1.0, 0.5, 2.0, 0.25 + rng.uniform()]) for _ in range(n_conf)]
+    far = None
+    if zero_weight:
+        far = rng.below(n_conf)
+        weights[far] = rng.choice([0.0, float(np.exp(-800.0)), 0.0, 5e-324])     # 5e-324: the smallest weight that still counts
+        shift = rng.choice([2.0 * extent + 2.0, 2.0 * extent + 3.5])
+        coords[far] = [[f32(x + shift), y, z] for x, y, z in coords[far]]
     gstyle = rng.weighted([("rect", 3), ("random32", 2), ("random64", 1)])
     if gstyle == "rect":
         grid = None
@@ -485,6 +496,10 @@ def gen_scene(rng, quick):
         npts = rng.range(1, 40 if quick else 80)
         conv = f32 if gstyle == "random32" else float
         grid = [[conv((rng.uniform() * 2 - 1) * (extent + 1.5)) for _ in range(3)] for _ in range(npts)]
+        if far is not None:    # grid points only the unpopulated conformer reaches
+            for _ in range(rng.range(3, 8)):
+                a = rng.choice(coords[far])
+                grid.append([conv(a[0] + (rng.uniform() - 0.5)), conv(a[1] + (rng.uniform() - 0.5)), conv(a[2] + (rng.uniform() - 0.5))])
         gspec = None
     scene = {"section": "scene", "elements": elements, "coords": coords, "charges": charges, "weights": weights,
              "grid_style": gstyle, "grid": grid, "grid_spec": gspec, "style": style,
@@ -628,6 +643,10 @@ def check_scenes(ctx, n_cases, corpus, big=0):
         if s.get("phase"):
             ctx.count(f"scene-second-query-after-edit:{s['then']['edit']}")
         ctx.count(f"scene-conformers={n_conf}")
+        if any(w == 0.0 for w in s["weights"]):
+            ctx.count("scene-with-zero-weight-conformer")
+        elif any(w < 1e-300 for w in s["weights"]):
+            ctx.count("scene-with-denormal-weight-conformer")
         ctx.count(f"scene-grid:{s['grid_style']}")
         gtok = pts_tok(grid, rat) if exact else None
         sink = reqs if exact else _OnlyBinary32(reqs)
@@ -824,7 +843,8 @@ def run(ctx):
                 "strided/transposed/reversed/column-strided/mixed-dtype arguments; non-trivial = a non-contiguous argument. "
                 "Grids: dyadic boxes (exact comparison) and general float boxes (tolerance; width/spacing within 1e-4 of an "
                 "integer skipped); non-trivial = more than one point. Scenes: 1..5, 11..30 or 31..60 atoms (beyond one KD-tree leaf of 10 points) x 1..4 conformers, rectangular or "
-                "random float32/float64 grids; half of the scenes query, edit the SAME objects in place (coords assignment / translate / scale) and "
+                "random float32/float64 grids; a third of the scenes have a conformer of weight exactly 0 (explicit / underflowed) or 5e-324 placed "
+                "where no other conformer reaches, with grid points around it; half of the scenes query, edit the SAME objects in place (coords assignment / translate / scale) and "
                 "query again; additional large scenes: grids of 4097..20001 points, 100..260 atoms, 17..70 conformers (compared with the brute-force "
                 "definition and the binary32 driver); max_dist in {0.5..3.3}, eps in {0..1}; each scene exercises nearest (ensemble and "
                 "single geometry), prune (both), aso and aeif (weighted and not); non-trivial = >1 atom and a non-empty grid. "
